@@ -35,6 +35,9 @@ SumTo(f(_), n, cx) == IF n = 0 THEN Zero(cx) ELSE Add(SumTo(f, n - 1, cx), f(n),
 \* A rejected (case, configuration): printed for the driver; the judge keeps going so that one pass
 \* lists every rejection.  Always TRUE so that it can be conjoined.
 Reject(l, case, cfg) == PrintT(<<"REJECT", l, case, cfg>>)
+\* a rejection that matches a NAMED deviation of the specification (a documented defect class): the tag lets the driver
+\* tell exactly this wrong behaviour (a listed known finding) from any other wrong behaviour (a violation)
+RejectTag(l, case, cfg, tag) == PrintT(<<"REJECT", l, case, cfg, tag>>)
 
 \* every trace spec:  all lines consumed  <=>  diameter - 1 = Len(Tr)
 AllConsumed == TLCGet("stats").diameter - 1 = Len(Tr)
